@@ -948,7 +948,7 @@ class Interferogram(RichData):
         p = RichData(psd_, 0, self.wavelength)
         p.x = ux
         p.y = uy
-        p.dx = ux[1] - ux[0]
+        p.dx = ux[0, 1] - ux[0, 0]  # ux is a 2D grid: the frequency increment runs along a row
         p._default_twosided = False
         return p
 
